@@ -235,7 +235,11 @@ class Interp:
                 self.inc("contexts_built_ahead")
             elif kind == "construct":
                 self.seq += 1
-                c = Context(None) if self.seq % 2 else Context()  # an explicit None is the same as leaving the parent out
+                if self.seq % 3 == 2 and stack:
+                    c = Context(current_context())  # naming the current context as the parent is the same as leaving the parent out
+                    self.inc("constructions_naming_the_current_context")
+                else:
+                    c = Context(None) if self.seq % 2 else Context()  # an explicit None is the same as leaving the parent out
                 self.inc("constructions_checked")
                 top = stack[-1] if stack else None
                 if c.parent is not top:
